@@ -23,7 +23,12 @@ import (
 // simcheck replay -file replays/x.json               re-executes a replay file in this (fresh) process
 // simcheck trace  -prop C20 -seed N -i K             prints the full event log of one run (determinism diffing)
 
-const verifDir = "/verif"
+var verifDir = func() string {
+	if d := os.Getenv("VERIF_DIR"); d != "" {
+		return d
+	}
+	return "/verif"
+}()
 
 type Finding struct {
 	Property string       `json:"property"`
